@@ -33,8 +33,12 @@ One(id) == IF id = 0 THEN <<>> ELSE <<id>>
 ValueOk(ins, k, v, stable, mf) ==
     LET t == IF mf = "join" THEN TokensAll(ins, k) ELSE Tokens(ins, k) IN
     IF mf = "first" THEN
+        \* (membership in a set built once: a quantifier over the positions re-evaluates the
+        \* selection for every position, quadratic on a key inserted thousands of times)
         LET a == TokensAll(ins, k) IN
-        IF stable THEN v = One(a[1]) ELSE \E i \in 1..Len(a) : v = One(a[i])
+        IF stable THEN v = One(a[1])
+        ELSE LET sa == SeqSet(a) IN
+             IF v = <<>> THEN 0 \in sa ELSE (Len(v) = 1 /\ v[1] # 0 /\ v[1] \in sa)
     ELSE IF stable THEN v = t
     ELSE Len(v) = Len(t) /\ SeqSet(v) = SeqSet(t) /\ Zeros(v) = Zeros(t)   \* non-zero ids are unique: a permutation
 
